@@ -124,7 +124,7 @@ def additem_pin(name, kinds, wit, what):
 MULTISETS = [m for m in itertools.combinations_with_replacement(range(5), 3) if m != (NONE, NONE, NONE)]
 # quick: the multisets with an importer and a definition in all three modules (a module that is never loaded behaves as an absent one,
 # so these subsume the multisets in which a module is empty)
-CORE1 = [(D, D, I), (D, F, I), (F, F, I), (D, I, I), (F, I, I), (D, I, W), (F, I, W)]
+CORE1 = [(D, D, I), (D, F, I), (F, F, I), (D, I, I), (F, I, I)]   # (D,I,W), (F,I,W) and all others: thorough (quick budget about 60 CPU-minutes)
 FOUR = [(D, NONE, I, NONE, F, I), (F, I, I, D, D, F)]   # hand-picked two-name configurations
 
 
@@ -200,7 +200,7 @@ META = {
         "modules": "3 static modules M1..M3, names x and y",
         "shapes": "per module and name one of {nothing | data n + `export n` | `export n` + empty func n | `import n` | `forward n` + local empty func n}. "
                   "Module shapes are an ENUMERATED configuration (one obligation each). hist1 (one name): all 34 non-empty multisets of 3 shapes (thorough), "
-                  "the 7 with importer(s) and definitions in all three modules (quick). hist2 (two names): the 25 rows of the orthogonal array OA(25,6,5,2) - every pair of (module,name) positions "
+                  "5 with importer(s) and exported definitions in all three modules (quick). hist2 (two names): the 25 rows of the orthogonal array OA(25,6,5,2) - every pair of (module,name) positions "
                   "takes all 25 shape pairs - plus, in thorough, 2 hand-picked (and 6 drawn from VERIF_SEED at 3 steps)",
         "history": "EVERY sequence of exactly N steps. hist1: N = 4 (5 for one configuration in thorough), step kinds load M1|M2|M3, load_external y (a fresh "
                    "address each time), link with resolver NULL | a resolver that knows only y (6 kinds; the code does not distinguish names, so the "
